@@ -959,7 +959,383 @@ Definition enc_config (c : config) : list (list Z) :=
    map (fun x => zN (c_slate x)) (st_ctxs s)]
   ++ map enc_out (st_outs s) ++ map enc_entry (st_log s) ++ map enc_slot (st_slots s).
 
+(** * Trace of a schedule: which section each step executed *)
+
+Definition pc_code (p : pc) : N :=
+  match p with
+  | P_U1 => 1 | P_U2 => 2 | P_U3 => 3 | P_U4 => 4 | P_U6 => 6 | P_U7 => 7 | P_U8 => 8
+  | P_ST => 20 | P_S1 => 21 | P_S2 => 22 | P_S3 => 23 | P_S4 => 24 | P_S5 => 25 | P_S6 => 26
+  | P_S7 => 27 | P_S8 => 28 | P_S9 => 29 | P_S10 => 30
+  | P_U9 => 9 | P_U10 => 10 | P_SF => 31 | P_CF => 40 | P_TF => 41 | P_OP => 50 | P_DONE => 0
+  end.
+
+(** label of a step: thread, section, and whether the step mines a block *)
+Record label := mkLabel { lb_tid : N; lb_pc : pc; lb_block : bool }.
+
+Definition mines (k : kind) : bool :=
+  match k with KCpfin _ | KPostmine | KMine => true | _ => false end.
+
+Fixpoint trace (m : wbmode) (sched : list N) (c : config) : list label :=
+  match sched with
+  | [] => []
+  | t :: r =>
+    match nth_error (fst c) (N.to_nat t) with
+    | Some l => mkLabel t (l_pc l) (mines (l_kind l) && negb (done l))
+                :: trace m r (step_thread m t c)
+    | None => trace m r c
+    end
+  end.
+
+(** * The recorded open findings, as shapes of the trace
+
+    All three need two overlapping runs of the refresh body (update_wallet_state / scan:
+    the updater thread against cancel_tx, retrieve_* with refresh or scan).
+    - [K1] stale chain view: a scan's wallet snapshot (S2) is taken after another run's
+      update_outputs (U3) saw a block that is newer than the chain outputs the scan collected
+      (after S1); the scan then "repairs" an output the newer view had rightly marked spent.
+    - [K2] cancel_tx checks (its own refresh; the kernel lookup follows U6) and cancels (final section) in two phases;
+      another run's update_outputs that saw a newer block lands in between.
+    - [K3] double restore: two scans both took their wallet snapshot (S2) before either
+      restored (S5) the same missing output. *)
+
+Definition pc_eqb (a b : pc) : bool := pc_code a =? pc_code b.
+
+(** [a] at [pa], then a block, then [b] (<> a) at [pb], then [a] at [pc'] *)
+Fixpoint after3 (a : N) (pend : pc) (tr : list label) : bool :=
+  match tr with
+  | [] => false
+  | x :: r => ((lb_tid x =? a) && pc_eqb (lb_pc x) pend) || after3 a pend r
+  end.
+Fixpoint after2 (a : N) (pb pend : pc) (tr : list label) : bool :=
+  match tr with
+  | [] => false
+  | x :: r => (negb (lb_tid x =? a) && pc_eqb (lb_pc x) pb && after3 a pend r)
+              || after2 a pb pend r
+  end.
+Fixpoint after1 (a : N) (pb pend : pc) (tr : list label) : bool :=
+  match tr with
+  | [] => false
+  | x :: r => (lb_block x && after2 a pb pend r) || after1 a pb pend r
+  end.
+Fixpoint shape_block (pa pb pend : pc) (tr : list label) : bool :=
+  match tr with
+  | [] => false
+  | x :: r => (pc_eqb (lb_pc x) pa && after1 (lb_tid x) pb pend r) || shape_block pa pb pend r
+  end.
+
+Definition known_K1 (tr : list label) : bool := shape_block P_S1 P_U3 P_S2 tr.
+Definition known_K2 (tr : list label) : bool := shape_block P_U6 P_U3 P_CF tr.
+
+(** two threads a <> b: S2(a) and S2(b) both occur before S5(a) and before S5(b) *)
+Fixpoint first_pos (a : N) (p : pc) (i : N) (tr : list label) : option N :=
+  match tr with
+  | [] => None
+  | x :: r => if (lb_tid x =? a) && pc_eqb (lb_pc x) p then Some i else first_pos a p (i + 1) r
+  end.
+Definition known_K3_pair (tr : list label) (a b : N) : bool :=
+  match first_pos a P_S2 0 tr, first_pos b P_S2 0 tr,
+        first_pos a P_S5 0 tr, first_pos b P_S5 0 tr with
+  | Some sa, Some sb, Some ra, Some rb => (sa <? rb) && (sb <? ra)
+  | _, _, _, _ => false
+  end.
+Definition tids (tr : list label) : list N := nodup N.eq_dec (map lb_tid tr).
+Definition known_K3 (tr : list label) : bool :=
+  existsb (fun a => existsb (fun b => negb (a =? b) && known_K3_pair tr a b) (tids tr)) (tids tr).
+
+Definition known (tr : list label) : bool := known_K1 tr || known_K2 tr || known_K3 tr.
+
+(** * Footprints (for the commutation theorem)
+
+    The shared state is split into nine locations; [fp l] over-approximates what the next
+    step of a thread with local state [l] reads (including the node calls that follow the
+    section) and writes. SchedProofs.v proves the approximation sound ([step_frame],
+    [step_det]). *)
+
+Inductive loc := LOut | LLog | LChild | LCtx | LConfH | LScanned | LInit | LNode | LSlots.
+
+Definition loc_eqb (a b : loc) : bool :=
+  match a, b with
+  | LOut, LOut | LLog, LLog | LChild, LChild | LCtx, LCtx | LConfH, LConfH
+  | LScanned, LScanned | LInit, LInit | LNode, LNode | LSlots, LSlots => true
+  | _, _ => false
+  end.
+
+Definition eq_on (x : loc) (s s' : state) : Prop :=
+  match x with
+  | LOut => st_outs s = st_outs s'
+  | LLog => st_log s = st_log s' /\ st_nextid s = st_nextid s'
+  | LChild => st_child s = st_child s'
+  | LCtx => st_ctxs s = st_ctxs s'
+  | LConfH => st_confh s = st_confh s'
+  | LScanned => st_scanned s = st_scanned s'
+  | LInit => st_init s = st_init s'
+  | LNode => st_node s = st_node s'
+  | LSlots => st_slots s = st_slots s'
+  end.
+
+Definition footprint := (list loc * list loc)%type.   (* reads, writes *)
+
+Definition fp (l : local) : footprint :=
+  match l_pc l with
+  | P_DONE | P_U1 | P_U2 | P_TF => ([], [])
+  | P_U3 => ([LOut; LLog; LConfH; LNode], [LOut; LLog; LConfH])
+  | P_U4 => ([LLog], [])
+  | P_U6 | P_ST | P_S1 => ([LNode], [])
+  | P_U7 => ([LLog; LNode], [LLog])
+  | P_U8 => ([LScanned; LInit], [])
+  | P_S2 => ([LOut], [])
+  | P_S3 | P_S6 | P_S8 => ([LLog], [LLog])
+  | P_S4 | P_S7 | P_S9 => ([LOut], [LOut])
+  | P_S5 | P_U10 | P_CF => ([LOut; LLog], [LOut; LLog])
+  | P_S10 => ([LChild], [LChild])
+  | P_U9 => ([], [LScanned; LInit])
+  | P_SF => ([], [LScanned])
+  | P_OP =>
+    match l_kind l with
+    | KReceive _ => ([LOut; LLog; LChild; LConfH; LSlots], [LOut; LLog; LChild; LSlots])
+    | KLock _ => ([LOut; LLog; LCtx; LNode; LSlots], [LOut; LLog])
+    | KFinalize _ => ([LOut; LLog; LCtx; LConfH; LSlots], [LLog; LCtx; LSlots])
+    | KInit _ _ _ _ _ => ([LOut; LLog; LChild; LCtx; LConfH; LNode; LSlots],
+                          [LOut; LLog; LChild; LCtx; LConfH; LSlots])
+    | KCpfin _ | KPostmine => ([LNode; LSlots], [LNode; LSlots])
+    | KMine | KDown | KUp => ([LNode], [LNode])
+    | _ => ([], [])
+    end
+  end.
+
+Definition memL (x : loc) (l : list loc) : bool := existsb (loc_eqb x) l.
+Definition disjointL (a b : list loc) : bool := forallb (fun x => negb (memL x b)) a.
+
+(** two steps conflict unless neither writes what the other reads or writes *)
+Definition independent (f g : footprint) : bool :=
+  disjointL (snd f) (fst g) && disjointL (snd f) (snd g) && disjointL (snd g) (fst f).
+
+(** the footprints of the steps a schedule executes, in order *)
+Fixpoint trace_fp (m : wbmode) (sched : list N) (c : config) : list (N * footprint) :=
+  match sched with
+  | [] => []
+  | t :: r =>
+    (t, match nth_error (fst c) (N.to_nat t) with Some l => fp l | None => ([], []) end)
+    :: trace_fp m r (step_thread m t c)
+  end.
+
+(** stable sort of a schedule by the rank of the thread (the serial order [rank]) *)
+Fixpoint insert_by (rank : N -> N) (x : N) (l : list N) : list N :=
+  match l with
+  | [] => [x]
+  | y :: r => if rank y <? rank x then y :: insert_by rank x r else x :: y :: r
+  end.
+Fixpoint sort_by (rank : N -> N) (l : list N) : list N :=
+  match l with
+  | [] => []
+  | x :: r => insert_by rank x (sort_by rank r)
+  end.
+
+(** every pair of steps that is not in the serial order [rank] (the thread that should
+    come later runs first) is independent: conflicting sections keep their serial order *)
+Fixpoint ordered (rank : N -> N) (T : list (N * footprint)) : Prop :=
+  match T with
+  | [] => True
+  | af :: T' =>
+    Forall (fun bf => rank (fst bf) < rank (fst af) -> independent (snd af) (snd bf) = true) T'
+    /\ ordered rank T'
+  end.
+
+(** a schedule is serial when a thread never runs again after another one took over *)
+Fixpoint serialb (l : list N) : bool :=
+  match l with
+  | [] => true
+  | x :: r =>
+    match r with
+    | [] => true
+    | y :: _ => ((x =? y) || negb (memN x r)) && serialb r
+    end
+  end.
+
+(** * The lock: explicit acquire / release semantics (for the no-deadlock theorem)
+
+    [wallet_lock!] takes the single non-re-entrant wallet mutex, the section runs, the mutex
+    is released at the end of the scope. A section is a function of the thread-local and
+    shared state: it has no way to acquire the mutex again while holding it. *)
+
+Record lconfig := mkL { lk_holder : option N; lk_cfg : config }.
+
+Definition thread_done (c : config) (t : N) : bool :=
+  match nth_error (fst c) (N.to_nat t) with Some l => done l | None => true end.
+
+Inductive lstep (m : wbmode) : lconfig -> lconfig -> Prop :=
+| Acquire : forall t c, thread_done c t = false -> lstep m (mkL None c) (mkL (Some t) c)
+| Release : forall t c, lstep m (mkL (Some t) c) (mkL None (step_thread m t c)).
+
+Inductive lreach (m : wbmode) (c0 : config) : lconfig -> Prop :=
+| lreach0 : lreach m c0 (mkL None c0)
+| lreachS : forall a b, lreach m c0 a -> lstep m a b -> lreach m c0 b.
+
+(** * Exploration: the schedules of a scenario
+
+    As the harness enumerates them: at every point any thread that has not finished may
+    run; leaving a wallet thread that has not finished for another wallet thread costs one
+    preemption, at most [bound] of them; environment steps are free and never count as the
+    thread that is left. [bound = 0] gives exactly the serial executions of the wallet
+    operations with the environment events landing anywhere. *)
+
+Definition kind_of (c : config) (t : N) : option kind :=
+  match nth_error (fst c) (N.to_nat t) with Some l => Some (l_kind l) | None => None end.
+Definition env_thread (c : config) (t : N) : bool :=
+  match kind_of c t with Some k => is_env k | None => false end.
+
+Fixpoint seqN (n : nat) (from : N) : list N :=
+  match n with O => [] | S n' => from :: seqN n' (from + 1) end.
+Definition alive (c : config) : list N :=
+  filter (fun t => negb (thread_done c t)) (seqN (length (fst c)) 0).
+
+(** does running [t] after [last] cost a preemption? *)
+Definition costs (c : config) (last : option N) (t : N) : bool :=
+  match last with
+  | Some u => negb (thread_done c u) && negb (u =? t) && negb (env_thread c t)
+  | None => false
+  end.
+
+Definition next_last (c : config) (last : option N) (t : N) : option N :=
+  if env_thread c t then last else Some t.
+
+(** declaratively: [sched] is a complete schedule from [c] within the preemption budget *)
+Inductive valid_sched (m : wbmode) : N -> option N -> config -> list N -> Prop :=
+| vs_nil : forall b last c, alive c = [] -> valid_sched m b last c []
+| vs_cons : forall b last c t r,
+    In t (alive c) ->
+    (if costs c last t then 1 <=? b else true) = true ->
+    valid_sched m (if costs c last t then b - 1 else b) (next_last c last t)
+                (step_thread m t c) r ->
+    valid_sched m b last c (t :: r).
+
+Fixpoint explore (m : wbmode) (fuel : nat) (b : N) (last : option N) (c : config) (path : list N)
+  : list (list N * config) :=
+  match alive c with
+  | [] => [(rev path, c)]
+  | al =>
+    match fuel with
+    | O => []
+    | S fuel' =>
+      flat_map (fun t =>
+                  if costs c last t then
+                    if 1 <=? b then explore m fuel' (b - 1) (next_last c last t)
+                                            (step_thread m t c) (t :: path)
+                    else []
+                  else explore m fuel' b (next_last c last t) (step_thread m t c) (t :: path))
+               al
+    end
+  end.
+
+(** * Observation compared by the property *)
+
+Fixpoint lex_leb (a b : list Z) : bool :=
+  match a, b with
+  | [], _ => true
+  | _ :: _, [] => false
+  | x :: a', y :: b' => if (x <? y)%Z then true else if (y <? x)%Z then false else lex_leb a' b'
+  end.
+Fixpoint insert_row (x : list Z) (l : list (list Z)) : list (list Z) :=
+  match l with
+  | [] => [x]
+  | y :: r => if lex_leb x y then x :: y :: r else y :: insert_row x r
+  end.
+Definition sort_rows (l : list (list Z)) : list (list Z) := fold_right insert_row [] l.
+
+(** the excess label as the harness can name it: the kernel of slot k only once the
+    finalized transaction exists *)
+Definition obs_excess (s : state) (x : option N) : Z :=
+  match x with
+  | None => (-1)%Z
+  | Some 0 => 0%Z
+  | Some k => match nth_error (st_slots s) (N.to_nat (k - 1)) with
+              | Some sl => if s_fin sl then Z.of_N k else 0%Z
+              | None => 0%Z
+              end
+  end.
+
+(** entry without its id and lookup height: [content ++ [id]] sorts by content, then id *)
+Definition entry_row (s : state) (e : entry) : list Z :=
+  [zO (e_slate e); zN (ttype_code (e_type e)); zB (e_conf e); zN (e_credited e); zN (e_debited e);
+   zO (e_fee e); zO (e_ttl e); zN (e_nin e); zN (e_nout e); obs_excess s (e_excess e);
+   match e_proof e with None => 0 | Some false => 1 | Some true => 2 end%Z; zB (e_stored e);
+   zN (e_id e)].
+
+Fixpoint index_of (id : Z) (rows : list (list Z)) (i : Z) : Z :=
+  match rows with
+  | [] => (-2)%Z
+  | r :: rest => if (last r (-3) =? id)%Z then i else index_of id rest (i + 1)%Z
+  end.
+
+Definition obs (c : config) : list (list Z) :=
+  let s := snd c in
+  let erows := sort_rows (map (entry_row s) (st_log s)) in
+  let ren := fun t => match t with Some id => index_of (zN id) erows 0 | None => (-1)%Z end in
+  let orows := sort_rows (map (fun o => [zN (wo_child o); zB (wo_mmr o); zN (wo_value o);
+                                          status_code (wo_status o); zN (wo_height o);
+                                          zN (wo_lock o); zB (wo_cb o); ren (wo_tx o)])
+                              (st_outs s)) in
+  [map (fun l => zN (obs_result l)) (fst c); [zN (st_child s)];
+   concat (sort_rows (map (fun x => [zN (c_slate x)]) (st_ctxs s)))]
+  ++ [[7%Z]] ++ orows ++ [[8%Z]] ++ map (fun r => removelast r) erows.
+
+Definition list_Z_eqb (a b : list Z) : bool :=
+  (length a =? length b)%nat && forallb (fun xy => (fst xy =? snd xy)%Z) (combine a b).
+Definition obs_eqb (a b : list (list Z)) : bool :=
+  (length a =? length b)%nat && forallb (fun xy => list_Z_eqb (fst xy) (snd xy)) (combine a b).
+
+Definition finals (m : wbmode) (b : N) (c0 : config) : list (list N * config) :=
+  explore m 200 b None c0 [].
+
+(** every schedule within [b] preemptions ends in the observation of some serial execution,
+    or has one of the recorded shapes *)
+Definition serializable_or_known (m : wbmode) (b : N) (c0 : config) : bool :=
+  let ser := map (fun x => obs (snd x)) (finals m 0 c0) in
+  forallb (fun x => known (trace m (fst x) c0) || existsb (obs_eqb (obs (snd x))) ser)
+          (finals m b c0).
+
 (** one correspondence case: initial state, thread kinds, schedule *)
 Definition run_case (x : state * list kind * list N) : list (list Z) :=
   let '(s, ks, sched) := x in
-  enc_config (run Fresh sched (map init_local ks, s)).
+  let c0 := (map init_local ks, s) in
+  let tr := trace Fresh sched c0 in
+  [zB (known_K1 tr); zB (known_K2 tr); zB (known_K3 tr)]
+  :: map (fun x => zN (pc_code (lb_pc x))) tr
+  :: enc_config (run Fresh sched c0).
+
+(** * Scenario instances (initial states captured from the harness's setup phase) *)
+
+(** receiver, received in setup; refresh || cancel_tx || counterparty finalizes+posts+block *)
+Definition scen_recv_cancel_state : state :=
+  (mkState [mkWout 0%N false 5000000000%N Unconfirmed 6%N 0%N false (Some 0%N)] [mkEntry 0%N (Some 0%N) TReceived false 5000000000%N 0%N None None 0%N 1%N (Some 1%N) (Some 6%N) None false] 1%N 1%N [] 6%N 6%N 2%N (mkNode 6%N [] [] false []) [mkSlot true true false false false 5000000000%N 23000000%N 0%N (mkTxd 1%N [] [(0%N, 5000000000%N)])]).
+Definition scen_recv_cancel_threads : list kind := [KRefresh; (KCancel 0%N); (KCpfin 0%N)].
+
+(** sender, no change, finalized in setup; refresh || cancel_tx || post+mine *)
+Definition scen_send_nochange_cancel_state : state :=
+  (mkState [mkWout 0%N false 60000000000%N Locked 1%N 4%N true (Some 1%N)] [mkEntry 0%N None TCoinbase true 60000000000%N 0%N None None 0%N 1%N (Some 0%N) (Some 5%N) None false; mkEntry 1%N (Some 0%N) TSent false 0%N 60000000000%N (Some 12500000%N) None 1%N 0%N (Some 1%N) (Some 5%N) None true] 2%N 1%N [] 5%N 5%N 2%N (mkNode 5%N [(0%N, 1%N, 60000000000%N, true)] [] false []) [mkSlot true true true false false 59987500000%N 12500000%N 0%N (mkTxd 1%N [0%N] [])]).
+Definition scen_send_nochange_cancel_threads : list kind := [KRefresh; (KCancel 0%N); KPostmine].
+
+(** an output of the wallet is on chain but not in it; refresh || retrieve_txs(refresh) || block mined *)
+Definition scen_restore_two_refresh_state : state :=
+  (mkState [] [mkEntry 0%N (Some 0%N) TRecvCancelled false 5000000000%N 0%N None None 0%N 1%N (Some 1%N) (Some 7%N) None false] 1%N 1%N [] 7%N 7%N 2%N (mkNode 8%N [(0%N, 8%N, 5000000000%N, false)] [(1%N, 8%N)] false []) [mkSlot true true true true false 5000000000%N 23000000%N 0%N (mkTxd 1%N [] [])]).
+Definition scen_restore_two_refresh_threads : list kind := [KRefresh; KTxs; KMine].
+
+(** sender, no change output, payment proof; locked in setup; refresh || finalize || post+mine *)
+Definition scen_send_nochange_finalize_state : state :=
+  (mkState [mkWout 0%N false 60000000000%N Locked 1%N 4%N true (Some 1%N)] [mkEntry 0%N None TCoinbase true 60000000000%N 0%N None None 0%N 1%N (Some 0%N) (Some 5%N) None false; mkEntry 1%N (Some 0%N) TSent false 0%N 60000000000%N (Some 12500000%N) None 1%N 0%N (Some 0%N) (Some 5%N) (Some false) true] 2%N 1%N [mkCtx 0%N [(0%N, false)] [] 12500000%N 59987500000%N true] 5%N 5%N 2%N (mkNode 5%N [(0%N, 1%N, 60000000000%N, true)] [] false []) [mkSlot true true false false true 59987500000%N 12500000%N 0%N (mkTxd 1%N [0%N] [])]).
+Definition scen_send_nochange_finalize_threads : list kind := [KRefresh; (KFinalize 0%N); KPostmine].
+
+(** receiver; refresh || receive || counterparty finalizes+posts+block *)
+Definition scen_recv_cpfin_state : state :=
+  (mkState [] [] 0%N 0%N [] 6%N 6%N 2%N (mkNode 6%N [] [] false []) [mkSlot true false false false false 5000000000%N 23000000%N 0%N (mkTxd 1%N [] [])]).
+Definition scen_recv_cpfin_threads : list kind := [KRefresh; (KReceive 0%N); (KCpfin 0%N)].
+
+(** sender, locked in setup, TTL one block ahead; refresh (expires it) || finalize || block mined *)
+Definition scen_ttl_expire_state : state :=
+  (mkState [mkWout 0%N false 60000000000%N Locked 1%N 4%N true (Some 2%N); mkWout 1%N false 60000000000%N Unspent 2%N 5%N true (Some 0%N); mkWout 2%N false 52977000000%N Unconfirmed 6%N 0%N false (Some 2%N)] [mkEntry 0%N None TCoinbase true 60000000000%N 0%N None None 0%N 1%N (Some 0%N) (Some 6%N) None false; mkEntry 1%N None TCoinbase true 60000000000%N 0%N None None 0%N 1%N (Some 0%N) (Some 6%N) None false; mkEntry 2%N (Some 0%N) TSent false 52977000000%N 60000000000%N (Some 23000000%N) (Some 7%N) 1%N 1%N (Some 0%N) (Some 6%N) None true] 3%N 3%N [mkCtx 0%N [(0%N, false)] [(2%N, 52977000000%N)] 23000000%N 7000000000%N false] 6%N 6%N 2%N (mkNode 6%N [(0%N, 1%N, 60000000000%N, true); (1%N, 2%N, 60000000000%N, true)] [] false []) [mkSlot true true false false false 7000000000%N 23000000%N 7%N (mkTxd 1%N [0%N] [(2%N, 52977000000%N)])]).
+Definition scen_ttl_expire_threads : list kind := [KRefresh; (KFinalize 0%N); KMine].
+
+(** receiver whose cancelled receive got mined (missing output); scan(delete_unconfirmed) || receive *)
+Definition scen_scan_restore_receive_state : state :=
+  (mkState [] [mkEntry 0%N (Some 0%N) TRecvCancelled false 5000000000%N 0%N None None 0%N 1%N (Some 1%N) (Some 7%N) None false] 1%N 1%N [] 7%N 7%N 2%N (mkNode 8%N [(0%N, 8%N, 5000000000%N, false)] [(1%N, 8%N)] false []) [mkSlot true true true true false 5000000000%N 23000000%N 0%N (mkTxd 1%N [] []); mkSlot true false false false false 3000000000%N 23000000%N 0%N (mkTxd 2%N [] [])]).
+Definition scen_scan_restore_receive_threads : list kind := [(KScan true); (KReceive 1%N); KMine].
